@@ -213,6 +213,22 @@ func Run(t *testing.T, cs Case, opts bubble.StackOpts, hello []byte, oracle func
 			synctest.Wait()
 			cl.Raw.Deliver(cs.K)
 			synctest.Wait()
+		case "stall-after-handshake":
+			// the TLS handshake completes, the client sends the first K bytes of what it owes next (the HTTP/2 connection
+			// preface, or an HTTP/1.1 request) and falls silent without disconnecting
+			cl = st.Connect("victim", nil, helloFor(cs.Proto))
+			synctest.Wait()
+			first := []byte("GET /stalled HTTP/1.1\r\nHost: localhost\r\n\r\n")
+			if cs.Proto == "h2" {
+				first = append([]byte(h2wire.Preface), h2wire.Settings()...)
+			}
+			if cs.K > len(first) {
+				cs.K = len(first)
+			}
+			if cs.K > 0 {
+				cl.Write(first[:cs.K])
+			}
+			synctest.Wait()
 		case "slow-reader":
 			// the client asks for a large response and stops reading; the proxy's writes block (bounded socket buffer);
 			// after a while the client goes away (Val 0: close, 1: reset) or (Val 2) starts reading again and finishes
@@ -376,6 +392,9 @@ func Run(t *testing.T, cs Case, opts bubble.StackOpts, hello []byte, oracle func
 			// K: 0 the client closes, 1 the backend side closes first, 2 the backend declines with 200
 			var tunnel *bubble.EchoTunnel
 			st.Backend.Respond = func(r *bubble.RecReq) *bubble.Resp {
+				if r.Path != "/ws" {
+					return nil // every other request (the control clients') is answered as usual
+				}
 				if r.Header.Get("Upgrade") == "" || cs.K == 2 {
 					return &bubble.Resp{Status: 200, Body: []byte("plain")}
 				}
@@ -423,7 +442,7 @@ func Run(t *testing.T, cs Case, opts bubble.StackOpts, hello []byte, oracle func
 		// let every armed timer fire (handshake timeout 10 s, http2 goaway/settings timers)
 		time.Sleep(40 * time.Second)
 		synctest.Wait()
-		if cs.Kind == "stall" || cs.Kind == "plain-http" || cs.Kind == "h2-mutation" || cs.Kind == "h2-flood" || cs.Kind == "h2-rare" {
+		if cs.Kind == "stall" || cs.Kind == "plain-http" || cs.Kind == "h2-mutation" || cs.Kind == "h2-flood" || cs.Kind == "h2-rare" || cs.Kind == "stall-after-handshake" {
 			cl.Close() // the stalled client finally goes away
 			if cl.Raw != nil {
 				cl.Raw.Close()
